@@ -269,11 +269,15 @@ func registerResolver() {
 	}
 	register(&PropSpec{
 		ID: "C11", Pkg: "argmapper",
-		Quick:    []Shard{c11(2, 1), c11(3, 3), c11(2, 2), sh("HarnessC11Within", "two needs within one call, struct form", 0, 1), sh("HarnessC11Within", "two needs within one call, built form", 0, 3)},
-		Thorough: []Shard{c11(3, 1), c11(4, 3), c11(3, 2), c11(5, 1), sh("HarnessC11Within", "two needs within one call, struct form", 0, 1), sh("HarnessC11Within", "two needs within one call, built form", 0, 3), sh("HarnessC11Within", "two needs within one call, *struct form", 0, 2)},
-		Covers:   []string{"C11.history-checked", "C11.later-use-checked", "C11.cached-error-checked", "C11.within-call-checked"},
-		Bounds:   []string{"sequential histories of <=3 (quick) / 5 (thorough) operations chosen symbolically from Call on two targets, Convert and Redefine, all needing one run-once converter (directly or through a second converter), fresh symbolic arguments per operation, symbolic failure of the first execution", "repeated needs within one call"},
-		Outside:  []string{"the concurrent clause (goroutine interleavings) is not explored: see C12 for the write-set argument and DESIGN.md", "histories longer than 5"},
+		Quick: []Shard{c11(2, 1), c11(3, 3), c11(2, 2),
+			sh("HarnessC11Par", "two goroutines calling the same target, run-once converter struct form, <=3 context switches", 0, 1, 0, 3), sh("HarnessC11Par", "goroutine A calls the target, B Converts, run-once converter *struct form, <=3 context switches", 0, 2, 1, 3),
+			sh("HarnessC11Within", "two needs within one call, struct form", 0, 1), sh("HarnessC11Within", "two needs within one call, built form", 0, 3)},
+		Thorough: []Shard{c11(3, 1), c11(4, 3), c11(3, 2), c11(5, 1),
+			sh("HarnessC11Par", "two goroutines calling the same target, run-once converter struct form, <=6 context switches", 0, 1, 0, 6), sh("HarnessC11Par", "target/Convert, run-once converter built form, <=6 context switches", 0, 3, 1, 6), sh("HarnessC11Par", "two goroutines, positional-result... *struct form, <=5 context switches", 0, 2, 0, 5),
+			sh("HarnessC11Within", "two needs within one call, struct form", 0, 1), sh("HarnessC11Within", "two needs within one call, built form", 0, 3), sh("HarnessC11Within", "two needs within one call, *struct form", 0, 2)},
+		Covers:   []string{"C11.history-checked", "C11.later-use-checked", "C11.cached-error-checked", "C11.within-call-checked", "C11.par-checked"},
+		Bounds:   []string{"concurrent clause: two goroutines each performing one call that needs the shared run-once converter, all interleavings with <=3 (quick) / 6 (thorough) context switches (vnPar)", "sequential histories of <=3 (quick) / 5 (thorough) operations chosen symbolically from Call on two targets, Convert and Redefine, all needing one run-once converter (directly or through a second converter), fresh symbolic arguments per operation, symbolic failure of the first execution", "repeated needs within one call"},
+		Outside:  []string{"interleavings beyond two goroutines x one call each and beyond the stated number of context switches; handover only at mutex operations and at accesses to assigned fields of the shared objects", "histories longer than 5"},
 		Assume:   common,
 		Anchored: []string{"(*github.com/hashicorp/go-argmapper.Func).callDirect", "github.com/hashicorp/go-argmapper.FuncOnce"},
 		CVQuick:  2, CVThor: 4,
@@ -284,9 +288,11 @@ func registerResolver() {
 	}
 	register(&PropSpec{
 		ID: "C12", Pkg: "argmapper", RaceReplay: true,
-		Quick:    []Shard{c12(0, 0), c12(1, 0), c12(2, 0), c12(3, 0), c12(4, 0), c12(0, 1), c12(3, 1)},
-		Thorough: []Shard{c12(0, 0), c12(1, 0), c12(2, 0), c12(3, 0), c12(4, 0), c12(0, 1), c12(1, 1), c12(2, 1), c12(3, 1), c12(4, 1)},
-		Covers:   []string{"C12.operation-checked"},
+		Quick: []Shard{c12(0, 0), c12(1, 0), c12(2, 0), c12(3, 0), c12(4, 0), c12(0, 1), c12(3, 1),
+			sh("HarnessC12Par", "outcome clause: two goroutines, shared run-once converter (struct form), interleavings with <=3 context switches", 0, 1, 3), sh("HarnessC12Par", "outcome clause: two goroutines, shared run-once converter (*struct form), <=3 context switches", 0, 2, 3)},
+		Thorough: []Shard{c12(0, 0), c12(1, 0), c12(2, 0), c12(3, 0), c12(4, 0), c12(0, 1), c12(1, 1), c12(2, 1), c12(3, 1), c12(4, 1),
+			sh("HarnessC12Par", "outcome clause: two goroutines, shared run-once converter (struct form), <=6 context switches", 0, 1, 6), sh("HarnessC12Par", "outcome clause: shared run-once converter (*struct form), <=6 context switches", 0, 2, 6), sh("HarnessC12Par", "outcome clause: shared run-once converter (built form), <=5 context switches", 0, 3, 5)},
+		Covers:   []string{"C12.operation-checked", "C12.par-checked"},
 		Bounds:   []string{"shared objects: a struct-form target with default options, two converters (one optionally run-once), an option slice whose composition (Named, NamedSubtype, TypedSubtype, ConverterFunc/Converter, ConverterGen, filters) is symbolic; operations Call, Convert, Redefine, repeated use, call of a redefined function", "write set: every interpreter store (Store, map update/delete, append into spare capacity, copy, reflect.Value.Set) to a cell reachable from the shared objects or from package-level variables; stores made while a sync.Mutex is held are admitted"},
 		Outside:  []string{"functions assembled with BuildFunc (excluded by the property)", "user callbacks", "the Go memory model below the granularity of interpreter loads and stores", "outcome equivalence under interleaving is implied only when the write set is empty or lock-protected"},
 		Assume:   append(common, "non-interference reduction: no unguarded write to pre-existing state => race freedom and sequential outcomes under every interleaving"),
